@@ -337,7 +337,10 @@ def sweep(base, with_derived):
         remap = {g: i for i, g in enumerate(used)}
         el = np.vectorize(remap.get)(sub)
         di = np.array([1 + (k % 3) for k in idx], dtype="uint32")
-        grid = SG.make_grid(v[:, used], el, di)
+        try:
+            grid = SG.make_grid(v[:, used], el, di)
+        except Exception as ex:  # noqa: "for all triangle soups accepted by Grid": a well-formed soup that makes the constructor raise is a failure of the property
+            return n, {"base": base, "elements": idx}, "Grid(...) raises %s: %s on a well-formed triangle soup" % (type(ex).__name__, str(ex)[:120])
         err = check_grid(grid)
         if err is None and with_derived and (len(idx) <= 3 or mask % 17 == 0):
             err = _derived_ok(grid)
